@@ -272,15 +272,25 @@ sexp sexp_bytes_to_string (sexp ctx, sexp vec, sexp_uint_t offset, sexp_uint_t s
 }
 
 /* Like fgets, but the result is a string of all the bytes read, */
-/* so that a line may contain NUL characters. */
+/* so that a line may contain NUL characters, and a negative n */
+/* means there is no limit on the length of the line. */
 sexp sexp_stream_read_line (sexp ctx, int n, FILE *in) {
   sexp res;
-  int c = 0, len = 0;
-  char *buf;
-  if (n <= 0) return SEXP_FALSE;
-  buf = (char*) malloc(n);
+  int c = 0, len = 0, size = (n > 0 && n < 128) ? n : 128;
+  char *buf, *tmp;
+  if (n == 0) return SEXP_FALSE;
+  buf = (char*) malloc(size);
   if (!buf) return sexp_global(ctx, SEXP_G_OOM_ERROR);
-  while (len < n-1 && (c = getc(in)) != EOF) {
+  while ((n < 0 || len < n-1) && (c = getc(in)) != EOF) {
+    if (len >= size) {
+      tmp = (char*) realloc(buf, size*2);
+      if (!tmp) {
+        free(buf);
+        return sexp_global(ctx, SEXP_G_OOM_ERROR);
+      }
+      buf = tmp;
+      size *= 2;
+    }
     buf[len++] = c;
     if (c == '\n') break;
   }
